@@ -53,6 +53,10 @@ func NewModule(name string, builders ...ModuleOption) ModuleOption {
 // AddSingleton creates a ModuleBuilder for adding a singleton service.
 func AddSingleton(service any, opts ...AddOption) ModuleOption {
 	return func(s Collection) error {
+		if s == nil {
+			return ErrCollectionNil
+		}
+
 		return s.AddSingleton(service, opts...)
 	}
 }
@@ -60,6 +64,10 @@ func AddSingleton(service any, opts ...AddOption) ModuleOption {
 // AddScoped creates a ModuleBuilder for adding a scoped service.
 func AddScoped(service any, opts ...AddOption) ModuleOption {
 	return func(s Collection) error {
+		if s == nil {
+			return ErrCollectionNil
+		}
+
 		return s.AddScoped(service, opts...)
 	}
 }
@@ -67,6 +75,10 @@ func AddScoped(service any, opts ...AddOption) ModuleOption {
 // AddTransient creates a ModuleBuilder for adding a transient service.
 func AddTransient(service any, opts ...AddOption) ModuleOption {
 	return func(s Collection) error {
+		if s == nil {
+			return ErrCollectionNil
+		}
+
 		return s.AddTransient(service, opts...)
 	}
 }
@@ -265,6 +277,10 @@ func (o addAsOption) applyAddOption(opts *addOptions) {
 //	)
 func Remove[T any]() ModuleOption {
 	return func(c Collection) error {
+		if c == nil {
+			return ErrCollectionNil
+		}
+
 		c.Remove(reflect.TypeOf((*T)(nil)).Elem())
 		return nil
 	}
@@ -282,6 +298,10 @@ func Remove[T any]() ModuleOption {
 //	)
 func RemoveKeyed[T any](key any) ModuleOption {
 	return func(c Collection) error {
+		if c == nil {
+			return ErrCollectionNil
+		}
+
 		c.RemoveKeyed(reflect.TypeOf((*T)(nil)).Elem(), key)
 		return nil
 	}
